@@ -31,6 +31,8 @@ def itemOfJson (j : Json) : Except String Item := do
   | "runAction" => pure (.runAction t)
   | "rpcResult" => pure (.rpcResult t (← j.getObjValAs? Bool "ok"))
   | "postCheck" => pure .postCheck
+  | "postStartExisting" => pure (.postStartExisting t)
+  | "rpcStartExisting" => pure (.rpcStartExisting t)
   | _ => throw s!"bad item {k}"
 
 def itemStr : Item → String
@@ -40,11 +42,19 @@ def itemStr : Item → String
   | .runAction t => s!"runAction:{t}"
   | .rpcResult t ok => s!"rpcResult:{t}:{ok}"
   | .postCheck => "postCheck"
+  | .postStartExisting t => s!"postStartTask:{t}:existing"
+  | .rpcStartExisting t => s!"rpcStartTask:{t}:existing"
 
 def eventOfJson (j : Json) : Except String Event := do
   let k ← j.getObjValAs? String "ev"
   match k with
   | "start" => pure .start
+  | "pause" => pure .pause
+  | "resume" => pure .resume
+  | "stop" =>
+    match St.ofString? (← j.getObjValAs? String "state") with
+    | some s => pure (.stop s)
+    | none => throw "bad state"
   | "execute" => pure (.execute (← j.getObjValAs? String "t") (← j.getObjValAs? Bool "ok"))
   | "deliver" => do pure (.deliver (← itemOfJson (← j.getObjVal? "item")))
   | _ => throw s!"bad event {k}"
@@ -71,6 +81,12 @@ def handle (fn : String) (a : Json) : Option (Except String Json) :=
   | "reverse.requires" => some do
       let sp ← specOfJson (← a.getObjVal? "spec")
       pure (Json.arr (sp.tasks.map fun t => Json.arr #[Json.str t.name, strs (requiresOf sp t)]).toArray)
+  | "reverse.integrity" => some do
+      let sp ← specOfJson (← a.getObjVal? "spec")
+      pure (match checkIntegrity sp with
+        | none => Json.str "ok"
+        | some .taskNotFound => Json.str "task-not-found"
+        | some .requiresCycle => Json.str "requires-cycle")
   | "reverse.needed" => some do
       let sp ← specOfJson (← a.getObjVal? "spec")
       pure (optJson strs (needed sp))
